@@ -903,7 +903,7 @@ func (s *c19Sess) runList(ops []*c19Op, gate *c19Gate, skew int) {
 // generators
 
 var (
-	c19Kinds   = []int64{0, 1, 3, 5, 7, 1059, 10002, 20001, 30023, 40000, 65535}
+	c19Kinds = []int64{0, 1, 3, 5, 7, 1059, 10002, 20001, 30023, 40000, 65535}
 	// short ids, ids that differ only in case / surrounding blanks, and ids that are longer than
 	// 64 bytes and differ only beyond byte 64 (nothing in the relay enforces a length)
 	c19SubPool = []string{"a", "b", "sub-1", "", "x:y", "α", " a", "b ", "A",
